@@ -83,6 +83,24 @@ structure Ctx where
   locks : List Lock
   deriving DecidableEq, Repr
 
+/-! Explicit Boolean equality tests (cheap for the kernel to evaluate; `same… = true → =` is proved in Proofs). -/
+def boolSame (a b : Bool) : Bool := (a && b) || (!a && !b)
+
+def Lock.same (a b : Lock) : Bool := a.name == b.name && boolSame a.excl b.excl
+
+def locksSame : List Lock → List Lock → Bool
+  | [], [] => true
+  | a :: as, b :: bs => Lock.same a b && locksSame as bs
+  | _, _ => false
+
+def optSame : Option Nat → Option Nat → Bool
+  | none, none => true
+  | some a, some b => a == b
+  | _, _ => false
+
+def Ctx.same (c d : Ctx) : Bool :=
+  c.group == d.group && optSame c.origin d.origin && c.fn == d.fn && locksSame c.locks d.locks
+
 /-- locks the callee starts with -/
 def inherit (L : List Lock) (c : Call) : List Lock := if c.same then L ++ c.locks else []
 
@@ -133,9 +151,9 @@ def concCtx (c₁ c₂ : Ctx) : Bool :=
 
 /-- `cs` contains every entry's start context and is closed under the call edges -/
 def closedB (t : Table) (cs : List Ctx) : Bool :=
-  (t.entries.all fun e => cs.contains ⟨e.group, tagOf e, e.fn, []⟩) &&
+  (t.entries.all fun e => cs.any (Ctx.same ⟨e.group, tagOf e, e.fn, []⟩)) &&
   (cs.all fun c => (t.calls.filter fun cl => cl.caller == c.fn).all fun cl =>
-      cs.contains ⟨c.group, c.origin, cl.callee, inherit c.locks cl⟩)
+      cs.any (Ctx.same ⟨c.group, c.origin, cl.callee, inherit c.locks cl⟩))
 
 /-- the accesses each context performs -/
 def effs (t : Table) (cs : List Ctx) : List (Ctx × Access) :=
@@ -154,6 +172,10 @@ structure Eff where
 
 def effOf (c : Ctx) (a : Access) : Eff := ⟨c.group, c.origin, a.fn, a.loc, a.write, a.atomic, effLocks a c.locks⟩
 
+def Eff.same (p q : Eff) : Bool :=
+  p.group == q.group && optSame p.origin q.origin && p.fn == q.fn && p.loc == q.loc &&
+    boolSame p.write q.write && boolSame p.atomic q.atomic && locksSame p.locks q.locks
+
 def concEff (p q : Eff) : Bool :=
   p.group == q.group && (p.origin.isNone || q.origin.isNone || p.origin != q.origin)
 
@@ -168,7 +190,8 @@ abbrev Groups := List (Nat × List Eff)
 
 /-- every access of every context appears in a group with its location as key -/
 def coveredB (t : Table) (cs : List Ctx) (gs : Groups) : Bool :=
-  (effs t cs).all fun p => gs.any fun g => g.1 == p.2.loc && g.2.contains (effOf p.1 p.2)
+  cs.all fun c => t.accesses.all fun a =>
+    a.fn != c.fn || (gs.any fun g => g.1 == a.loc && g.2.any (Eff.same (effOf c a)))
 
 /-- within (and across equal-keyed) groups every pair is fine -/
 def groupsOKB (k : Known) (gs : Groups) : Bool :=
